@@ -185,7 +185,7 @@ def run_alg(alg, data, case, init=None, printitn=0, dimorder=None, ranks=None, s
             elif alg == "gcp":
                 obj = Objectives[case.get("objective", "GAUSSIAN")]
                 i0 = init if isinstance(init, str) else ttb.ktensor([a.copy() for a in init])
-                M, M0, o = ttb.gcp_opt(data.copy(), R, obj, LBFGSB(maxiter=case.get("maxiters", 8), iprint=-1),
+                M, M0, o = ttb.gcp_opt(data if case.get("nocopy") else data.copy(), R, obj, LBFGSB(maxiter=case.get("maxiters", 8), iprint=-1),
                                        init=i0, printitn=printitn)
                 res = {"full": M.full().data, "nums": {"final_f": float(o["final_f"])},
                        "ints": {"nit": int(o["nit"])}, "init": [f.copy() for f in M0.factor_matrices]}
@@ -813,7 +813,7 @@ class Iface(Family):
                         if alg == "tucker_als" and start == "nvecs" and rep == "sparse":
                             continue  # sptensor.nvecs is C14's subject
                         c = base_case(rng, tier, alg)
-                        c.update(rep=rep, printitn=p, start=start, maxiters=2)
+                        c.update(rep=rep, printitn=p, start=start, maxiters=2, nocopy=True)
                         out.append(c)
         return out
 
@@ -844,7 +844,9 @@ class Iface(Family):
             stored = sorted(n for f, n in log if n in allowed["stored"])
             if stored:
                 tags.append("representation-specific-path")
-            if extra:
+            if not log:
+                out.append(Verdict("corr", f"{alg}: the recording data object saw no access at all", impl, None, None, tags))
+            elif extra:
                 out.append(Verdict("corr", f"{alg} touches members of the data object outside the modelled interface: "
                                    f"{sorted(extra)}", impl, None, None, tags))
             elif fam in ("cp_als", "tucker_als", "hosvd") and stored:
